@@ -19,12 +19,19 @@ func verifYield(tag string) {
 
 // verifBeforeWLock parks the calling task (reporting "blocked:<tag>") until the
 // lock that is about to be taken is free, so that a simulated task never blocks
-// inside the real mutex while every other task is parked.
+// inside the real mutex while every other task is parked. The first yield is
+// tagged "<tag>+held" when the lock is held by anyone (the caller included) on
+// arrival, which lets the simulator recognise a re-entrant acquisition.
 func verifBeforeWLock(mu *sync.RWMutex, tag string) {
 	if VerifYield == nil {
 		return
 	}
-	VerifYield(tag)
+	if mu.TryLock() {
+		mu.Unlock()
+		VerifYield(tag)
+	} else {
+		VerifYield(tag + "+held")
+	}
 	for !mu.TryLock() {
 		VerifYield("blocked:" + tag)
 	}
@@ -35,7 +42,12 @@ func verifBeforeRLock(mu *sync.RWMutex, tag string) {
 	if VerifYield == nil {
 		return
 	}
-	VerifYield(tag)
+	if mu.TryLock() {
+		mu.Unlock()
+		VerifYield(tag)
+	} else {
+		VerifYield(tag + "+held")
+	}
 	for !mu.TryRLock() {
 		VerifYield("blocked:" + tag)
 	}
